@@ -458,6 +458,55 @@ def l1_locked_guard(F, r):
             r.fail(name, f"removes jobs/routes from a solution ({ss[0][2]}) but neither it, its direct callees nor its callers (2 levels) consult SolutionContext.locked: pinned jobs can be moved off their vehicle", F.loc(ss[0][0], ss[0][1]))
 
 
+TCOST = "vrp_core::models::problem::costs::TransportCost::"
+LEG_RANK = {"prev": 0, "first": 0, "start": 0, "from": 0, "target": 1, "next": 2, "second": 2, "end": 2, "to": 2}
+
+
+def _leg_rank(fn, op):
+    out = set()
+    for k, v, p in mir.trace(fn, op):
+        hit = [x for x in p if x in ("prev", "target", "next")]
+        if hit:
+            out.add(hit[0])
+            continue
+        if k in ("arg", "local"):
+            nm = fn["names"].get(str(v))
+            if nm in LEG_RANK:
+                out.add(nm)
+            else:
+                out.add("?")
+        else:
+            out.add("?")
+    return out
+
+
+def d1_leg_direction(F, r):
+    """travel legs are evaluated in travel direction: (prev -> target), (target -> next), (prev -> next)"""
+    n = 0
+    for fid, fn in F.fns.items():
+        if not fid.lstrip("<").startswith(("vrp_core::construction", "vrp_core::models::problem::costs")):
+            continue
+        for bi, t in mir.calls(fn):
+            if not (t["callee"].startswith(TCOST) and t["callee"].split("::")[-1] in ("distance", "duration") and len(t["args"]) >= 4):
+                continue
+            a = _leg_rank(fn, t["args"][2])
+            b = _leg_rank(fn, t["args"][3])
+            if len(a) != 1 or len(b) != 1 or "?" in a or "?" in b:
+                r.skip()
+                continue
+            n += 1
+            x, y = list(a)[0], list(b)[0]
+            inst = f"{util.short_fn(fid)}: {t['callee'].split('::')[-1]}({x}->{y})"
+            # arrival-anchored (backward) evaluation legitimately names the later activity first only when anchored by TravelTime::Arrival
+            if LEG_RANK[x] < LEG_RANK[y]:
+                r.ok(inst, "leg evaluated in travel direction")
+            else:
+                r.fail(inst, f"routing data is queried for the leg {x} -> {y}, i.e. against the travel direction: with asymmetric matrices (one-way unreachable legs, "
+                             "direction dependent durations) the constraint/estimate is computed for the wrong leg", F.loc(fid, t["ln"]))
+    if n < 4:
+        raise AnchorError(f"only {n} rank-resolved leg queries")
+
+
 def run(ctx):
     F = ctx.F
     ctx.explanation = (
@@ -474,6 +523,7 @@ def run(ctx):
     ctx.run("C01-G2", "route-level gate: public evaluator entries reach the insertion analysis only through the None edge of goal.evaluate(route move)", g2_route_gate, floor=2)
     ctx.run("C01-G3", "InsertionSuccess is built only from an evaluated feasible position (make_success callers gated; copies only)", g3_success_construction, floor=12)
     ctx.run("C01-G4", "only confirmed modules insert activities into tours / obtain mutable activity access", g4_who_may_insert, floor=12)
+    ctx.run("C01-D1", "routing legs are queried in travel direction (prev -> target -> next)", d1_leg_direction, floor=4)
     ctx.run("C01-K1", "slot type agreement: every reader of a TypeId-keyed slot uses a type some writer stores", k1_slot_types, floor=40)
     ctx.run("C01-K2", "no orphan slot: every slot read by a hard constraint has a writer", k2_no_orphans, floor=15)
     ctx.run("C01-L1", "every tour/route removal is guarded by the locked-jobs set", l1_locked_guard, floor=10)
